@@ -102,6 +102,41 @@ def m_string_new(ex, a): return StrV([])
 def m_to_owned(ex, a): return StrV(as_str(a[0]).chars)
 @model('<std::string::String as Deref>::deref', '<std::string::String as AsRef<str>>::as_ref', 'std::string::String::as_str', '<std::string::String as Borrow<str>>::borrow')
 def m_string_deref(ex, a): return Ptr(a[0].cell, 'ref')
+@model_rx(r'^(?:std::string::|alloc::string::)?String::(with_capacity|reserve|reserve_exact|shrink_to_fit|capacity|clear|truncate|pop|insert|insert_str|remove|into_boxed_str|as_mut_str|into_bytes|chars|from_utf8_lossy|extend)$')
+def m_string_more(ex, a, m):
+    op = m.group(1)
+    if op == 'with_capacity': return StrV([])
+    sv = a[0].cell.v if isinstance(a[0], Ptr) else a[0]
+    if op in ('reserve', 'reserve_exact', 'shrink_to_fit'): return UNIT
+    if op == 'capacity': return ex.str_byte_len(sv)
+    if op == 'clear': del sv.chars[:]; return UNIT
+    if op == 'pop':
+        if not sv.chars: return none()
+        return some(char_val(sv.chars.pop()))
+    if op == 'chars': return IterV(iter([char_val(c) for c in sv.chars]))
+    if op in ('into_boxed_str', 'as_mut_str'): return a[0]
+    if op in ('truncate', 'insert', 'insert_str', 'remove'):
+        # byte positions: exact when every character before the position has a known width
+        k = a[1].concrete()
+        if k is None: raise Unsupported(f'String::{op} at a symbolic position')
+        pos = 0; idx = None
+        for i, c in enumerate(sv.chars + [None]):
+            if pos == k: idx = i; break
+            if c is None: break
+            w = ex.str_byte_len(StrV([c])).concrete()
+            if w is None: raise Unsupported(f'String::{op} behind a character of unknown width')
+            pos += w
+            if pos > k: raise Panic(f'String::{op}: byte index {k} is not a char boundary')
+        if idx is None:
+            if op == 'truncate': return UNIT
+            raise Panic(f'String::{op}: byte index {k} out of bounds')
+        if op == 'truncate': del sv.chars[idx:]; return UNIT
+        if op == 'insert':
+            ch = a[2]; c = ch.concrete(); sv.chars.insert(idx, chr(c) if c is not None else ch); return UNIT
+        if op == 'insert_str': sv.chars[idx:idx] = list(as_str(a[2]).chars); return UNIT
+        if idx >= len(sv.chars): raise Panic('String::remove: cannot remove a char from the end of a string')
+        return char_val(sv.chars.pop(idx))
+    raise Unsupported('String::' + op)
 @model('std::string::String::push')
 def m_string_push(ex, a):
     sv = a[0].cell.v; ch = a[1]; c = ch.concrete()
